@@ -52,12 +52,14 @@ def const_templates():
 
 
 def pairs(tier):
-    bases = families.arith(consumers=('cmp', 'widen', 'local')) + families.compare(types=[I8, I32, U16, I64]) + families.unary(types=[I8, I32, U16]) \
+    bases = families.arith(consumers=('cmp', 'widen', 'local')) + families.arithlit(types=[I32, U16, I64] if tier == 'quick' else families.INTS, tier=tier) + families.compare(types=[I8, I32, U16, I64]) + families.unary(types=[I8, I32, U16]) \
         + families.control() + families.composites() + const_templates()
     if tier == 'quick':
         # every 3rd arithmetic base in quick; everything in thorough
         keep = []
         for i, t in enumerate(bases):
+            if t.family == 'arithlit' and not re.search(r'/(div|rem|mul)/', t.id):
+                continue
             if t.family in ('arith', 'cmp', 'unary') and i % 3 and not re.search(r'/(i8)/', t.id):
                 continue
             keep.append(t)
